@@ -40,7 +40,10 @@ PROPERTIES = {
     "C04": {"level": "exploration", "legs": [vh("c04-size-inproc", "c04", "c04"),
                                              e2e("c04-relay-e2e", "c04-e2e", "e2e_relay.py", ["--prop", "C04"])],
             "assumptions": ["reference DNS codec is the trusted base", A_E2E]},
-    "C05": {"level": "exploration", "legs": [vh("c05-decoders-inproc", "c05", "c05"), e2e("c05-services-e2e", "c05-e2e", "e2e_c05.py")],
+    "C05": {"level": "exploration", "legs": [vh("c05-decoders-inproc", "c05", "c05"), e2e("c05-services-e2e", "c05-e2e", "e2e_c05.py"),
+                                             e2e("c05-memcheck-e2e", "memcheck", "e2e_memcheck.py", tiers=("thorough",)),
+                                             {"name": "miri-codec-subset", "engine": "miri", "argv": [PY, "{ROOT}/rig/miri_leg.py", "--n", "1500"],
+                                              "timeout_thorough": 7200, "tiers": ("thorough",)}],
             "assumptions": [A_E2E, "harness built with overflow-checks and debug-assertions on; panics observed through a panic hook; 120 s watchdog per call"]},
     "C06": {"level": "exploration", "legs": [vh("c06-cache-inproc", "c06", "c06"), e2e("c06-cache-e2e", "c06-e2e", "e2e_c06.py")],
             "assumptions": [A_E2E, "end to end, TTL comparisons allow one second either way; decisions use upstream transmission counts, not latencies", "the cache is driven through hook H3 (same key construction, lifetime, insert, lookup and expiry code as handle_query) under tokio's paused clock"]},
